@@ -325,6 +325,16 @@ Theorem C05_ocsp_pass_only_for_revoked : forall od idue x ord m,
 Proof. exact ocsp_pass_only_for_revoked. Qed.
 Print Assumptions C05_ocsp_pass_only_for_revoked.
 
+(** "renews it once", for the revocation path: over one OCSP pass the issuer is asked (successfully
+    or not) for a name at most as many times as there are revoked certificates with that first
+    name — for every state and processing order, no hypothesis *)
+Theorem C05_ocsp_pass_once_per_revoked : forall od idue x ord m,
+  let s := core x in let s' := core (xstep od idue x (OcspPass ord)) in
+  cnt (issued s') m + cnt (failed s') m <=
+  cnt (issued s) m + cnt (failed s) m + length (filter (fun c => chead c =? m) (revoked_certs x)).
+Proof. exact ocsp_pass_once_per_revoked. Qed.
+Print Assumptions C05_ocsp_pass_once_per_revoked.
+
 (** the extended monitor ([XModel.xspec_step]: the clauses of [Spec.spec_step] for core events plus
     "a status disappears only with its cache entry"; for an OCSP pass: unrevoked certificates
     kept, revoked ones gone, Issue only for their names, storage only changed by such an
